@@ -330,8 +330,17 @@ func runSlots(g *gen, sc Scenario, idx int, seed uint64, tier string, cs constsR
 		wire.Steps = append(wire.Steps, slotStepWire{Kind: p.kind, IDs: ids, Want: want, Rep: p.rep})
 	}
 	resp, err := call[slotsResp](store(), "c04slots", wire)
+	died := ""
 	if err != nil {
-		return fmt.Errorf("slots: %w", err)
+		if !errors.Is(err, storectl.ErrDied) {
+			return fmt.Errorf("slots: %w", err)
+		}
+		// the store process died (or hung and was killed) while serving the history: no observation at all
+		died = err.Error()
+		if len(died) > 400 {
+			died = died[:400]
+		}
+		resp = slotsResp{Cap: capacity}
 	}
 
 	// the CSlots case
@@ -373,7 +382,7 @@ func runSlots(g *gen, sc Scenario, idx int, seed uint64, tier string, cs constsR
 		coq: fmt.Sprintf("CSlots %s frs %s %s %d\n   [%s]\n   [%s]", cfg, casefile.Bool(arm),
 			strings.TrimSuffix(casefile.NList(dmg), "%N"), resp.Cap, strings.Join(sparts, "; "), strings.Join(oparts, "; ")),
 		class: "fetch-slots-history", nontrivial: true, input: input,
-		impl: map[string]any{"fetch_workers": resp.Cap, "observations": resp.Obs},
+		impl: map[string]any{"fetch_workers": resp.Cap, "observations": resp.Obs, "store_process_died": died},
 		counts: []string{fmt.Sprintf("slots:workers-%s", map[bool]string{true: "default", false: fmt.Sprint(workers)}[workers == 0]),
 			"slots:fault-" + []string{"none", "damaged-docs", "active-panic"}[mode]},
 	})
